@@ -182,4 +182,63 @@ theorem prod_dvd_of_pairwise_coprime (z : Int) : ∀ (l : List Int), List.Pairwi
     exact IsCoprime.mul_dvd (coprime_list_prod m t hpw'.1) (hd m (by simp))
       (ih hpw'.2 (fun q hq => hd q (by simp [hq])))
 
+theorem tmod_range (u p : Int) (hu : 0 ≤ u) (hp : 0 < p) : 0 ≤ Int.tmod u p ∧ Int.tmod u p < p :=
+  ⟨Int.tmod_nonneg p hu, Int.tmod_lt_of_pos u hp⟩
+
+theorem powmod_range (a : Int) (e : Nat) (p : Int) (hp : 0 < p) : 0 ≤ powmod a e p ∧ powmod a e p < p := by
+  rw [powmod_eq]; exact ⟨Int.emod_nonneg _ (by omega), Int.emod_lt_of_pos _ hp⟩
+
+theorem cast_eq_one_iff (t : Int) (p : Nat) (hp : 2 ≤ p) (h0 : 0 ≤ t) (h1 : t < p) : ((t : Int) : ZMod p) = 1 ↔ t = 1 := by
+  constructor
+  · intro h
+    have h2 : ((t - 1 : Int) : ZMod p) = 0 := by push_cast; rw [h]; simp
+    rw [ZMod.intCast_zmod_eq_zero_iff_dvd] at h2
+    obtain ⟨c, hc⟩ := h2
+    have hpp : (2 : Int) ≤ p := by exact_mod_cast hp
+    have : c = 0 := by
+      by_contra hne
+      rcases lt_or_gt_of_ne hne with hlt | hgt
+      · have : c ≤ -1 := by omega
+        nlinarith
+      · have : 1 ≤ c := by omega
+        nlinarith
+    rw [this] at hc; omega
+  · intro h; rw [h]; simp
+
+theorem firstDraw_complete (rnd : Nat → Int) (stop : Int → Bool) : ∀ (fuel i j : Nat), i ≤ j → j < i + fuel →
+    stop (rnd j) = true → ∃ d, firstDraw rnd stop fuel i = some d := by
+  intro fuel
+  induction fuel with
+  | zero => intro i j h1 h2; omega
+  | succ n ih =>
+    intro i j h1 h2 hs
+    rw [firstDraw]
+    by_cases hc : stop (rnd i) = true
+    · rw [if_pos hc]; exact ⟨_, rfl⟩
+    · rw [if_neg hc]
+      have : i ≠ j := by intro h; subst h; exact hc hs
+      exact ih (i + 1) j (by omega) (by omega) hs
+
+theorem splitTwo_spec : ∀ (fuel : Nat) (q0 : Int) (e0 : Nat), 0 < q0 → q0 < 2 ^ fuel →
+    (splitTwo fuel q0 e0).1 * 2 ^ (splitTwo fuel q0 e0).2 = q0 * 2 ^ e0 ∧ (splitTwo fuel q0 e0).1 % 2 = 1 ∧
+      0 < (splitTwo fuel q0 e0).1 ∧ e0 ≤ (splitTwo fuel q0 e0).2 := by
+  intro fuel
+  induction fuel with
+  | zero => intro q0 e0 h0 h1; simp at h1; omega
+  | succ n ih =>
+    intro q0 e0 h0 h1
+    rw [splitTwo]
+    by_cases hc : q0 % 2 = 0 ∧ q0 ≠ 0
+    · rw [if_pos hc]
+      have hlt : q0 / 2 < 2 ^ n := by
+        rw [pow_succ] at h1; omega
+      obtain ⟨r1, r2, r3, r4⟩ := ih (q0 / 2) (e0 + 1) (by omega) hlt
+      refine ⟨?_, r2, r3, by omega⟩
+      rw [r1, pow_succ]
+      have : q0 = 2 * (q0 / 2) := by omega
+      conv_rhs => rw [this]
+      ring
+    · rw [if_neg hc]
+      exact ⟨rfl, by omega, h0, le_refl _⟩
+
 end Givaro.Lemmas.NumTheo
